@@ -125,6 +125,7 @@ fn fault_universe(ctx: &mut Ctx) {
                         judge_process(ctx, "fml run", &text, &j.reference, &res, "fml run <file>");
                         if (fi + ck) % 5 == 0 {
                             let ast = ctx.scratch.join("f.json"); let bcf = ctx.scratch.join("f.bc");
+                            let _ = std::fs::remove_file(&ast); let _ = std::fs::remove_file(&bcf);
                             let p = cli::simple(&exe, &["parse", f.to_str().unwrap(), "-o", ast.to_str().unwrap()]);
                             let c = cli::simple(&exe, &["compile", ast.to_str().unwrap(), "-o", bcf.to_str().unwrap()]);
                             if p.ok() && c.ok() {
